@@ -30,9 +30,9 @@ RULE = ('cases = (class model, document). (a) random unambiguous and free '
         'six styles, 1-2 site mutants (scalar kind, dropped/added/misspelt/'
         'dashed keys, injected tags, collection/scalar swaps, non-string and '
         'complex keys), empty documents; (b) hand-shaped small models x every '
-        'node tree up to N nodes (quick 4, thorough 5) over a small scalar '
-        'alphabet and the model\'s key names, dashed variants and one foreign '
-        'key (exhaustive). Non-trivial: the reference gave Accept or Reject '
+        'node tree up to N nodes (exhaustive up to 3 quick / 4 thorough, one '
+        'in four of the next size) over a small scalar alphabet and the '
+        'model\'s key names, dashed variants and one foreign key. Non-trivial: the reference gave Accept or Reject '
         'and the real outcome was compared; distinct by (model, text).')
 ASSUMPTIONS = [
     'the reference semantics (vlib/refsem.py) is my reading of the '
@@ -54,12 +54,12 @@ def EXHAUSTIVE(tier):
 
 def requirements(tier):
     q = tier == 'quick'
-    req = {'cases': 120000 if q else 1500000,
+    req = {'cases': 100000 if q else 1300000,
            'ref_accept': 15000 if q else 200000,
-           'ref_reject': 90000 if q else 1200000,
+           'ref_reject': 70000 if q else 900000,
            'agree_accept': 15000 if q else 200000,
-           'agree_reject': 90000 if q else 1200000,
-           'small_documents': 60000 if q else 800000,
+           'agree_reject': 70000 if q else 900000,
+           'small_documents': 40000 if q else 600000,
            'class_values_compared': 12000 if q else 150000}
     for r in RULES_REQUIRED:
         req['rule ' + r] = 1
@@ -244,7 +244,67 @@ def small_models():
     Abs = cls('Abs', [p('a', 'int')], abc=True)
     Sub1 = cls('Sub1', [p('a', 'int')], bases=['Abs'])
     Sub2 = cls('Sub2', [p('a', 'int'), p('b', 'str', 'q')], bases=['Abs'])
+    S = {'name': 'S1', 'kind': 'str'}
+    L = {'name': 'L1', 'kind': 'stringlike'}
+    Eup = {'name': 'E2', 'kind': 'enum', 'members': ['RED', 'NO', 'ON'],
+           'savorize': [['enum_upper']], 'sweeten': [['enum_lower']]}
+    Ese = {'name': 'E3', 'kind': 'enum', 'members': ['x', 'y'],
+           'str_mixin': True}
+    Aunt = cls('A', [p('a', 'untyped'), p('b', 'any', None)])
+    Adef = cls('A', [p('a', 'int', 7), p('b', ['opt', 'str'], None)])
+    Aexd = cls('A', [p('a_b', 'int')], extra=True,
+               savorize=[['dashes_to_unders']],
+               sweeten=[['unders_to_dashes']])
+    Aw = cls('A', [p('a', 'int'), p('b', 'str')], word_attr='a',
+             recognize=['all', ['attr', 'a', ['union', 'int', 'str']],
+                        ['attr', 'b', None]],
+             savorize=[['word_to_int', 'a']], sweeten=[['int_to_word', 'a']])
+    P = cls('P', [p('x', 'int'), p('y', ['cls', 'E1'])], parsed=True,
+            recognize=['scalar', ['str']],
+            savorize=[['scalar_to_mapping_typed',
+                       [['x', 'int'], ['y', 'enum']], '|']],
+            sweeten=[['mapping_to_scalar', ['x', 'y'], '|']])
+    I = cls('I', [p('k', 'str'), p('v', 'int')], roster_item=True)
+    Oseq = cls('O', [p('o', 'int'), p('items', ['list', ['cls', 'I']])],
+               roster=True,
+               recognize=['all', ['attr', 'o', None], ['attr', 'items', None]],
+               savorize=[['map_to_seq', 'items', 'k', 'v']],
+               sweeten=[['seq_to_map', 'items', 'k', 'v']])
+    Oidx = cls('O', [p('o', 'int'),
+                     p('items', ['dict', 'str', ['cls', 'I']])], roster=True,
+               recognize=['all', ['attr', 'o', None], ['attr', 'items', None]],
+               savorize=[['map_to_index', 'items', 'k', None]],
+               sweeten=[['index_to_map', 'items', 'k', None]])
+    R = cls('R', [p('n', 'int')])
+    Rk = cls('Rk', [p('n', 'int'), p('kids', ['list', ['cls', 'R']])],
+             bases=['R'])
+    Cinit = cls('A', [p('a', 'int')],
+                init_raises=['if_param_eq', 'a', 1, 'ValueError'])
+    M1 = cls('M1', [p('a', 'int')])
+    M2 = cls('M2', [p('b', 'str', 'q')])
+    M12 = cls('M12', [p('a', 'int'), p('b', 'str', 'q')],
+              bases=['M1', 'M2'])
     out = [
+        ([Aunt], ['cls', 'A']),
+        ([Adef], ['cls', 'A']),
+        ([Aexd], ['cls', 'A']),
+        ([Aw], ['cls', 'A']),
+        ([E, P], ['cls', 'P']),
+        ([E, P], ['list', ['union', ['cls', 'P'], 'int']]),
+        ([I, Oseq], ['cls', 'O']),
+        ([I, Oidx], ['cls', 'O']),
+        ([R, Rk], ['cls', 'R']),
+        ([Cinit], ['list', ['cls', 'A']]),
+        ([M1, M2, M12], ['cls', 'M1']),
+        ([M1, M2, M12], ['union', ['cls', 'M2'], 'int']),
+        ([Eup], ['dict', 'str', ['cls', 'E2']]),
+        ([Ese], ['list', ['cls', 'E3']]),
+        ([S, L], ['union', ['cls', 'S1'], ['cls', 'L1']]),
+        ([L], ['dict', ['cls', 'L1'], ['list', 'int']]),
+        ([S], ['union', ['cls', 'S1'], 'int', 'path']),
+        ([], ['list', 'date']),
+        ([], ['dict', 'str', 'any']),
+        ([A], ['union', ['cls', 'A'], ['dict', 'str', 'int']]),
         ([A], ['cls', 'A']),
         ([Aopt], ['cls', 'A']),
         ([Aex], ['cls', 'A']),
@@ -284,7 +344,7 @@ def key_alphabet(spec):
         if c.get('recognize') and c['recognize'][0] == 'attr_value':
             ks.append(c['recognize'][1])
     ks.append('zz')
-    return sorted(set(ks))[:5]
+    return sorted(set(ks))[:6]
 
 
 def small_docs(n, scalars, keys, tags, memo=None):
@@ -329,6 +389,15 @@ def value_scalars(spec):
     """Scalars that matter for the model: alphabet + discriminator words."""
     out = list(SCALAR_ALPHABET)
     for c in spec['classes']:
+        if c.get('word_attr'):
+            out.append(N.s_str('two'))
+        if c.get('parsed'):
+            out.append(N.s_str('3|x'))
+            out.append(N.s_str('x|3'))
+        if c.get('members') and c.get('savorize'):
+            out.append(N.s_str('red'))
+        if c.get('kind') == 'enum' and 'true' not in c['members']:
+            out.append(N.s_str(c['members'][-1]))
         if c.get('kind') == 'enum':
             out.append(N.s_str(c['members'][0]))
         if c.get('recognize') and c['recognize'][0] == 'attr_value':
@@ -359,6 +428,8 @@ def shard(ctx):
         for n in range(1, nmax + 1):
             for nspec in small_docs(n, scalars, keys, tags, memo):
                 idx += 1
+                if n == nmax and (idx // ctx.nshards) % 4:
+                    continue        # the largest size is sampled 1 in 4
                 if not ctx.mine(idx):
                     continue
                 try:
